@@ -476,7 +476,7 @@ def gen_C11(g, tier):
             # the std adaptors (nth / skip / step_by / last / count / take) over the crate's iterators
             sl = offset_slice(g, c, t, r.randrange(0, 64 // w + 1))
             for kind in ("windows", "chunks", "iter", "reviter"):
-                for ad in ("nth", "skip", "stepby", "last", "count", "take", "nthnext"):
+                for ad in ("nth", "skip", "stepby", "last", "count", "take", "nthnext", "hint"):
                     wd = r.randrange(1, max(2, min(n, 5) + 1))
                     arg = r.choice([0, 1, 2, 3, n // 2, n])
                     lines.append(f"{c} adapt {kind} {wd} {ad} {arg} {sl}")
@@ -684,6 +684,7 @@ def gen_C08(g, tier):
                     lines.append(f"{c} kmers {K} {sl}")
                     lines.append(f"{c} windows {K} {sl}")
                     lines.append(f"{c} adapt kmers {K} {r.choice(['nth', 'skip', 'stepby', 'last', 'count', 'nthnext'])} {r.choice([0, 1, 2, 3])} {sl}")
+                    lines.append(f"{c} adapt kmers {K} hint {r.choice([0, 0, 1, 2])} {sl}")
                     lines.append(f"{c} kmer try {K} usize {sl}")
                     lines.append(f"{c} show kd {K} {sl}")
                     lines.append(f"{c} show ofkmer {K} {sl}")
